@@ -237,8 +237,42 @@ fn main() {
                 _ => println!("PANIC Evaluator::call_stack() on an empty call stack"),
             }
         }
+        Some("module-depth") => {
+            // eval_module must hand the call stack back empty on every exit: Ok, a run-time error, a stack overflow,
+            // a tick-limit error and a cancellation noticed only by the end-of-module check.
+            let r = std::panic::catch_unwind(|| {
+                Module::with_temp_heap(|module| {
+                    let globals = Globals::extended_internal();
+                    let cancelled = std::rc::Rc::new(std::cell::Cell::new(false));
+                    let mut eval = Evaluator::new(&module);
+                    eval.set_max_callstack_size(10).unwrap();
+                    let c = cancelled.clone();
+                    eval.set_check_cancelled(Box::new(move || c.get()));
+                    let mut out = Vec::new();
+                    let progs: &[(&str, &str, bool)] = &[
+                        ("ok", "x = 1", false),
+                        ("runtime-error", "def f():\n    return 1 // 0\nf()", false),
+                        ("stack-overflow", "def g(n):\n    return g(n + 1)\ng(0)", false),
+                        ("cancel-at-end", "y = 2", true),
+                        ("cancel-in-def", "def h():\n    return 3\nh()", true),
+                    ];
+                    for (name, src, cancel) in progs {
+                        cancelled.set(*cancel);
+                        let ast = AstModule::parse("m.star", (*src).to_owned(), &Dialect::Extended).unwrap();
+                        let res = eval.eval_module(ast, &globals);
+                        cancelled.set(false);
+                        out.push(format!("{}:{}:depth={}", name, if res.is_ok() { "ok" } else { "err" }, eval.call_stack_count()));
+                    }
+                    Ok::<String, anyhow::Error>(out.join(" "))
+                })
+            });
+            match r {
+                Ok(Ok(s)) => println!("{} {}", if s.split(' ').all(|p| p.ends_with("depth=0")) { "OK" } else { "LEAK" }, s),
+                _ => println!("PANIC eval_module sequence"),
+            }
+        }
         _ => {
-            eprintln!("usage: verif_replay eval <src> | evalfile <path> | callstack-empty");
+            eprintln!("usage: verif_replay eval <src> | evalfile <path> | callstack-empty | module-depth");
             std::process::exit(2);
         }
     }
